@@ -1,7 +1,12 @@
 use crate::base::{MetricEvent, DEFAULT_STATISTIC_MAX_RT};
 use enum_map::EnumMap;
 use std::fmt;
+#[cfg(not(flea1lt_sentinel_rust_verif))]
 use std::sync::atomic::{AtomicU32, AtomicU64, Ordering};
+#[cfg(flea1lt_sentinel_rust_verif)]
+use std::sync::{atomic::Ordering};
+#[cfg(flea1lt_sentinel_rust_verif)]
+use crate::verif::sync::{atomic::AtomicU32, atomic::AtomicU64};
 
 /// use atomic types to ensure metric's internal mutability
 /// otherwise, exclusive Mutex would be necessary on the LeapArray Arc among threads
